@@ -3,7 +3,7 @@
 import io
 
 from codec_common import SPELLINGS, PACKED, BINARY, DISPLAY, FLOAT4, FLOAT8, canon, enc_packed, enc_zoned
-from layout_common import gen_tree, print_copybook, assign_names, tree_sx, schema_sx, spell
+from layout_common import gen_tree, print_copybook, assign_names, tree_sx, schema_sx, spell, extra_clauses
 
 GEN = ["JsonTypeParams", "EstructParams", "Cp037", "ConversionParams", "ConversionBodyParams"]
 RULE = ("field: EVERY (13 USAGE spellings x unsigned/signed x (m,n) with 1<=m+n<=18 x {digit runs written out, 9(m), 9(n), both}) copybook through "
@@ -19,7 +19,13 @@ RULE = ("field: EVERY (13 USAGE spellings x unsigned/signed x (m,n) with 1<=m+n<
         "document must have the same structure. meta: the whole emitted document as JSON, unchanged and with one keyword broken at a time, "
         "check_schema's verdict against Spec/SchemaTruth.v valid_schema; the unchanged document (and the extended generator's document of the same description) "
         "is also compared, member by member and in order, with Model/SchemaDoc.v doc over the model's build of the record description the harness printed "
-        "(names, data names, USAGE and PICTURE as printed; type / contentEncoding / conversion from the model of json_type; the cobol text read back from the emitted anchor). Non-trivial = every case; distinct = distinct case lines.")
+        "(names, data names, USAGE and PICTURE as printed; type / contentEncoding / conversion from the model of json_type; the cobol text read back from the emitted anchor). "
+        "digit-names / digit-names-meta: the same two kinds of case for record descriptions whose data names BEGIN WITH A DIGIT (9x3, 4ST-NAME, 07-cnt: legal COBOL) - "
+        "all names, only elementary items, only groups, only REDEFINES targets and redefiners, only DEPENDING ON counters and their tables, one name, a random half; "
+        "every tree case carries the names the harness printed and every error Draft202012Validator(META_SCHEMA).iter_errors reports (keyword, last path step, offending value): "
+        "on these documents check_schema raises (known finding K-digit-first-name) and the judge demands that every error is the $anchor pattern on a digit-first name, one per such name, "
+        "and that structure, lengths, loading, bound references, the extended document and (meta) the whole document member by member are as for any other description. "
+        "Non-trivial = every case; distinct = distinct case lines.")
 TRIVIAL_BRANCHES = []
 ASSUMPTIONS = [
     "how a PICTURE string yields (signed, integer digits, fraction digits) in estruct is the scanner's business (C13); json_type's own test is modelled on the raw text",
@@ -28,7 +34,9 @@ ASSUMPTIONS = [
     "decoding of valid encodings is C02's theorems (reused); byte lengths are C04's specification",
     "the 2020-12 meta-schema is modelled for the keywords the generator emits (type $anchor $ref oneOf properties items maxItems minLength maxLength title "
     "contentEncoding); every other keyword is treated as unknown to the meta-schema; the model is tied to jsonschema's check_schema by the meta stream",
-    "names are legal anchors (C17 / names starting with a letter); the tree model carries names as identifiers",
+    "the tree model carries names as identifiers; the clean streams spell every data name with a letter first (a legal anchor); data names that begin with a digit "
+    "are the digit-names streams (known finding K-digit-first-name; Props/C08c.v C08c_valid_iff_no_digit_first: the exact boundary); other characters a COBOL "
+    "data name cannot hold are outside the property (C17 cleans header names, not COBOL names)",
     "the emitted DOCUMENT is Model/SchemaDoc.v doc over build (C08c): texts come from tables of names, data names, cobol texts and json_type keywords; "
     "the text of the cobol keyword (level + source of the entry; unconstrained by the meta-schema) is not modelled - the meta stream reads it back from "
     "the emitted sub-schema bearing the entry's $anchor and compares where it stands and that tables, inner items and $ref placeholders repeat it",
@@ -108,6 +116,13 @@ def inputs(ctx):
     # ---- more unchanged documents: each is also compared with the model's rendering of the description (C08c)
     for i in range(175 if quick else 2200):
         yield "meta", dict(k=3, seed=rng.randrange(1 << 30), mut=0, pick=0)
+    # ---- data names that begin with a digit (known finding K-digit-first-name): trees and whole documents
+    for i in range(70 if quick else 700):
+        mode = DN_MODES[i % len(DN_MODES)]
+        pos = dict(before=0, after=1) if i % 5 == 3 else dict(before=2) if i % 5 == 4 else {}
+        yield "digit-names", dict(k=2, seed=rng.randrange(1 << 30), opts={}, filler_redef=(i % 2 == 0),
+                                  dn=dict(mode=mode, seed=rng.randrange(1 << 30)), **pos)
+        yield "digit-names-meta", dict(k=3, seed=rng.randrange(1 << 30), mut=0, pick=0, dn=dict(mode=mode, seed=rng.randrange(1 << 30)))
 
 
 # ---------------------------------------------------------------- kind 1: one elementary item
@@ -287,6 +302,141 @@ def observe_field(c):
     return [1, c["gen"], c["u"], c["pic"], S(text), val, buf, emitted, nav, pad]
 
 
+# ---------------------------------------------------------------- data names (the clean spelling, and names that begin with a digit)
+
+# which data names of a description begin with a digit
+DN_MODES = ["all", "elem", "group", "redef", "counter", "one", "mixed"]
+
+
+def dn_spell(i, digit):
+    """the data name of item i in the digit-names streams (this runner's OWN pool): a COBOL data name needs one letter
+    somewhere, not first - upper, mixed and lower case as in the clean pool"""
+    if digit:
+        return [f"{i}N", f"{i}-Fld", f"9x{i}", f"{i}ST-NAME", f"0{i}-cnt"][i % 5]
+    return [f"N{i}", f"Nm-{i}", f"fld-{i}x", f"N{i}", f"Q{i}-Cnt"][i % 5]
+
+
+def dn_roles(tree):
+    """ids of the named entries by role"""
+    roles = dict(all=[], elem=[], group=[], redef=[], counter=[])
+
+    def go(n):
+        if not n["filler"]:
+            roles["all"].append(n["id"])
+            roles["elem" if n["kind"] == "elem" else "group"].append(n["id"])
+        if n["redef"] is not None:
+            roles["redef"].append(n["redef"])
+            if not n["filler"]:
+                roles["redef"].append(n["id"])
+        if n["occ"] is not None and n["occ"][0] == "odo":
+            roles["counter"].append(n["occ"][1])
+            if not n["filler"]:
+                roles["counter"].append(n["id"])
+        for k in n["kids"]:
+            go(k)
+    go(tree)
+    return {k: sorted(set(v)) for k, v in roles.items()}
+
+
+def dn_digits(tree, dn):
+    """the ids whose data name begins with a digit (never empty)"""
+    import random
+    roles = dn_roles(tree)
+    r = random.Random(dn["seed"])
+    mode = dn["mode"]
+    if mode == "one":
+        ids = [r.choice(roles["all"])]
+    elif mode == "mixed":
+        ids = [i for i in roles["all"] if r.random() < 0.5]
+    else:
+        ids = roles[mode]
+    return set(ids) or {r.choice(roles["all"])}
+
+
+def dn_tree(c):
+    """the description of a digit-names case: the first tree of the case's seeds in which the role asked for occurs"""
+    mode = c["dn"]["mode"]
+    for k in range(40):
+        tree, fillers = make_tree(dict(c, seed=c["seed"] + 7919 * k))
+        if mode not in ("redef", "counter") or dn_roles(tree)[mode]:
+            break
+    return tree, fillers
+
+
+def case_tree(c):
+    return dn_tree(c) if c.get("dn") else make_tree(c)
+
+
+def naming(c, tree):
+    """(spelling of the data name of id i, id -> unique name of the entries of tree)"""
+    if c.get("dn"):
+        digits = dn_digits(tree, c["dn"])
+        nm = lambda i: dn_spell(i, i in digits)
+    else:
+        nm = spell
+    names, fill = {}, [0]
+
+    def go(n):
+        if n["filler"]:
+            fill[0] += 1
+            names[n["id"]] = f"FILLER-{fill[0]}"
+        else:
+            names[n["id"]] = nm(n["id"])
+        for k in n["kids"]:
+            go(k)
+    go(tree)
+    assert len(set(names.values())) == len(names)
+    return nm, names
+
+
+def print_named(tree, nm):
+    """layout_common.print_copybook with the data names spelled by nm"""
+    if nm is spell:
+        return print_copybook(tree)
+    lines = []
+
+    def go(n, depth):
+        level = "01" if depth == 0 else f"{depth * 5:02d}"
+        ind = " " * (7 + 4 * min(depth, 6))
+        parts = [f"{level}  {'FILLER' if n['filler'] else nm(n['id'])}"]
+        if n["redef"] is not None:
+            parts.append(f"REDEFINES {nm(n['redef'])}")
+        if n["occ"] is not None:
+            if n["occ"][0] == "times":
+                parts.append(f"OCCURS {n['occ'][1]} TIMES")
+            else:
+                v = n["id"] % 6
+                lower = "" if v in (1, 4) else "0 TO "
+                times = "" if v in (2, 4) else " TIMES"
+                on = "" if v in (3, 5) else " ON"
+                parts.append(f"OCCURS {lower}{n['occ'][2]}{times}")
+                parts.append(f"DEPENDING{on} {nm(n['occ'][1])}")
+        if n["kind"] == "elem":
+            parts.append(f"PIC {n['pic']}")
+            if n["usage"] != "DISPLAY":
+                parts.append(f"USAGE {n['usage']}")
+            parts += extra_clauses(n)
+        for j, p in enumerate(parts):
+            lines.append((ind if j == 0 else ind + "    ") + p + ("." if j == len(parts) - 1 else ""))
+        for k in n["kids"]:
+            go(k, depth + 1)
+    go(tree, 0)
+    assert all(len(l) < 72 for l in lines)
+    return "\n".join(lines) + "\n"
+
+
+def meta_errors(js):
+    """every error the real validator reports for the document under the 2020-12 meta-schema: (keyword of the meta-schema
+    that failed, last step of the path into the document, offending value), in a fixed order"""
+    from lib import S
+    from jsonschema import Draft202012Validator
+    out = []
+    for e in Draft202012Validator(Draft202012Validator.META_SCHEMA).iter_errors(js):
+        last = e.absolute_path[-1] if e.absolute_path else ""
+        out.append([S(str(e.validator)), S(last) if isinstance(last, str) else [], json_sx(e.instance)])
+    return sorted(out, key=repr)
+
+
 # ---------------------------------------------------------------- kind 2: record trees
 
 
@@ -364,15 +514,16 @@ def tree_copybook(c):
     The other records are clean trees of the same generator, so they declare the SAME data names (N<id>, FILLER)
     with other pictures, usages and structure.  Returns (text, index of the record of interest, number of records)."""
     import random
-    tree, fillers = make_tree(c)
+    tree, fillers = case_tree(c)
+    nm, _ = naming(c, tree)
     r = random.Random(c["seed"] * 5 + 1)
     before = c.get("before", 1)
     after = c.get("after", r.randrange(2))
     texts = []
     for i in range(before + after):
         other = gen_tree(random.Random(r.randrange(1 << 30)))
-        texts.append(print_copybook(other))
-    texts.insert(before, print_copybook(tree))
+        texts.append(print_named(other, nm))
+    texts.insert(before, print_named(tree, nm))
     return "".join(texts), before, before + after + 1
 
 
@@ -403,9 +554,9 @@ def records_of(it, n):
 
 
 def observe_tree(c):
-    from lib import exn_code
-    tree, fillers = make_tree(c)
-    names = assign_names(tree)
+    from lib import exn_code, S
+    tree, fillers = case_tree(c)
+    _, names = naming(c, tree)
     rev = {v: k for k, v in names.items()}
     cb, pos, nrec = tree_copybook(c)
     from stingray.cobol_parser import schema_iter, structure, dde_sentences, reference_format, JSONSchemaMakerExtendedVocabulary
@@ -424,13 +575,14 @@ def observe_tree(c):
         ext_obs = [1, exn_code(xjs)]
     else:
         ext_obs = [0, clean(schema_sx(xjs, rev, EmittedSizes()))]
-    check_obs, load_obs, sites = [2], [2], []
+    check_obs, load_obs, sites, errors = [2], [2], [], []
     if js is not None:
         try:
             Draft202012Validator.check_schema(js)
             check_obs = [0]
         except Exception:
             check_obs = [1]
+        errors = meta_errors(js)
         try:
             schema = SchemaMaker.from_json(js)
             load_obs = [0]
@@ -439,7 +591,9 @@ def observe_tree(c):
             if isinstance(ex, (KeyboardInterrupt, SystemExit, MemoryError)):
                 raise
             load_obs = [1, exn_code(ex)]
-    return [2, tree_sx(tree), fillers, schema_obs, ext_obs, check_obs, load_obs, sites]
+    # the names the harness printed (id, unique name) and what the real validator objects to, error by error
+    return [2, tree_sx(tree), fillers, schema_obs, ext_obs, check_obs, load_obs, sites,
+            [[i, S(names[i])] for i in sorted(names)], errors]
 
 
 # ---------------------------------------------------------------- kind 3: the document against the meta-schema
@@ -486,8 +640,9 @@ def sub_schemas(d, acc):
 def observe_meta(c):
     import copy
     import random
-    tree, _ = make_tree(dict(seed=c["seed"], opts={}, filler_redef=True))
-    cb = print_copybook(tree)
+    tree, _ = case_tree(dict(c, opts={}, filler_redef=True))
+    nm, names = naming(c, tree)
+    cb = print_named(tree, nm)
     from stingray.cobol_parser import schema_iter
     from jsonschema import Draft202012Validator
     (js,) = list(schema_iter(io.StringIO(cb)))
@@ -515,17 +670,16 @@ def observe_meta(c):
         xverdict = 0
     except Exception:
         xverdict = 1
-    return [3, 0, json_sx(js), verdict, tree_sx(tree), text_table(tree), json_sx(xjs), xverdict]
+    return [3, 0, json_sx(js), verdict, tree_sx(tree), text_table(tree, nm, names), json_sx(xjs), xverdict, meta_errors(js)]
 
 
-def text_table(tree):
+def text_table(tree, nm, names):
     """what the generator wrote for every entry: (id, unique name, data name as written, USAGE spelling index, PICTURE text)"""
     from lib import S
-    names = assign_names(tree)
     rows = []
 
     def go(n):
-        title = "FILLER" if n["filler"] else spell(n["id"])
+        title = "FILLER" if n["filler"] else nm(n["id"])
         if n["kind"] == "elem":
             rows.append([n["id"], S(names[n["id"]]), S(title), SPELLINGS.index(n["usage"]), S(n["pic"])])
         else:
@@ -551,5 +705,5 @@ def describe(c):
     if c["k"] == 2:
         cb, pos, nrec = tree_copybook(c)
         return dict(c, copybook=cb, record_of_interest=pos)
-    tree, _ = make_tree(dict(seed=c["seed"], opts={}, filler_redef=True))
-    return dict(c, mutation=(MUTATIONS[c["mut"] - 1] if c["mut"] else None), copybook=print_copybook(tree))
+    tree, _ = case_tree(dict(c, opts={}, filler_redef=True))
+    return dict(c, mutation=(MUTATIONS[c["mut"] - 1] if c["mut"] else None), copybook=print_named(tree, naming(c, tree)[0]))
